@@ -16,7 +16,7 @@ ASSUME = [
 
 RULE = ("inflight: protocol-shaped (push all, submit in order with failed pushes, completions incl. duplicates and foreign indices, early drop) and arbitrary call sequences on the real InFlightBuffers "
         "behind drop-recording payloads, every mark_complete result and the released/leaked set at drop compared with the Lean model; "
-        "asan: the conc (schedules, pin words, read/retirement races, in-flight sets) and proto (crash, fault, partition, write-behind workloads) harness binaries rebuilt with -Zsanitizer=address and re-run on this run's seeds; "
+        "asan: the conc (schedules, pin words, read/retirement races, scheduled and free-running range scans / reads racing with overwrites, CAS, TTL updates, deletes and re-creations of the scanned keys, contention workloads, in-flight sets) and proto (crash, fault, partition, write-behind workloads) harness binaries rebuilt with -Zsanitizer=address and re-run on this run's seeds; "
         "an AddressSanitizer report or abnormal termination is a failing input. Distinct = SHA-1 of (line, answer).")
 
 
@@ -31,7 +31,8 @@ def asan_runs(ctx, quick):
         os.makedirs(d, exist_ok=True)
         seed = str(ctx.seed * 1000 + 500 + i)
         if i % 2 == 0:
-            jobs.append((d, [asan_bin("conc"), "--seed", seed, "--out", d, "cases=%d" % (60 if quick else 1500), "words=20", "races=%d" % (4 if quick else 60), "inflight=%d" % (50 if quick else 2000)]))
+            jobs.append((d, [asan_bin("conc"), "--seed", seed, "--out", d, "cases=%d" % (60 if quick else 1500), "words=20", "races=%d" % (4 if quick else 60), "inflight=%d" % (50 if quick else 2000),
+                             "scans=%d" % (10 if quick else 200), "scanrace=%d" % (6 if quick else 80), "contend=%d" % (2 if quick else 30)]))
         else:
             jobs.append((d, [asan_bin("proto"), "--seed", seed, "--out", d, "crash", "fault", "partition", "writebehind", "workloads=%d" % (2 if quick else 12), "budget=%d" % (6 if quick else 30),
                              "faults=1", "partitions=%d" % (2 if quick else 12), "wb=1", "lean=0"]))
@@ -53,7 +54,7 @@ def asan_runs(ctx, quick):
 
 def run(ctx):
     quick = ctx.tier == "quick"
-    extra = ('cases=0', 'inflight=%d' % (400 if quick else 20000))
+    extra = ('cases=0', 'inflight=%d' % (400 if quick else 20000), 'scanrace=%d' % (4 if quick else 100))
     def hook(ctx2, cov):
         pass
     # the in-flight differential goes through the shared runner; asan on top
